@@ -209,6 +209,37 @@ func init() {
 		case "close-first":
 			app1.Close()
 			time.Sleep(20 * time.Millisecond)
+		case "other-fails-late":
+			// another logical connection is accepted earlier, this one afterwards; the earlier one's service turns out to be
+			// unreachable only after a while: when its handling fails, this connection must not notice
+			fa, err := w.addListener("slowfail", clientCfg("none", false, true), "")
+			if err != nil {
+				return append(out, TW("first-half"), TW("setup"))
+			}
+			app1.Close()
+			t1.Close()
+			x, err := net.Dial("tcp", fa) // accepted by the server first, fails 400 ms later
+			if err == nil {
+				defer x.Close()
+			}
+			time.Sleep(100 * time.Millisecond)
+			appB, tB, err := w.dialApp(5 * time.Second) // accepted second
+			if err != nil {
+				return append(out, TW("first-half"), TW("not-served"))
+			}
+			defer appB.Close()
+			defer tB.Close()
+			if s, ok := echoOnce(appB, tB, patBytes(1, 512), 3*time.Second); !ok {
+				return append(out, TW("first-half"), TW(s))
+			}
+			time.Sleep(600 * time.Millisecond) // the earlier connection's dial has failed by now
+			if s, ok := echoOnce(appB, tB, patBytes(2, 512), 3*time.Second); !ok {
+				return append(out, TW("second-half"), TW(s), TW("iso"), TBool(true))
+			}
+			app1, t1, err = w.dialApp(5 * time.Second)
+			if err != nil {
+				return append(out, TW("second-half"), TW("not-served"), TW("iso"), TBool(true))
+			}
 		case "other-refused":
 			// while this connection is in the middle of a transfer another application asks for a channel the server does not offer
 			if s, ok := echoOnce(app1, t1, patBytes(1, 1024), 3*time.Second); !ok {
